@@ -3,6 +3,7 @@ package harness
 import (
 	"bytes"
 	"fmt"
+	"strings"
 	"testing"
 
 	"github.com/opsidian/parsley/parsley"
@@ -24,6 +25,10 @@ type C11Case struct {
 	// ZeroValue: every empty file of the case is a zero-value text.File (not made by a constructor):
 	// a valid empty file without a name
 	ZeroValue bool `json:"zeroValue,omitempty"`
+	// Names: how file i is called (kind Names[i % len], see fileNameKind: unnamed, ./file0, d/../file0,
+	// ...; for a file loaded from disk: how its path is spelled). A location names the file the way
+	// the caller named it.
+	Names []int `json:"names,omitempty"`
 }
 
 func (c *C11Case) Describe() string { return fmt.Sprintf("files=%q beyond=%d", c.Files, c.Beyond) }
@@ -49,6 +54,9 @@ func genC11(t *rapid.T) interface{} {
 		c.Big = 1<<uint(k) - 1 + rapid.SampledFrom([]int{0, 0, 0, -1, 1}).Draw(t, "bigOff")
 		c.ViaDisk = rapid.IntRange(0, 3).Draw(t, "bigDisk") > 0
 		c.BigOneLine = rapid.IntRange(0, 2).Draw(t, "bigOneLine") == 0
+	}
+	if rapid.IntRange(0, 2).Draw(t, "named") == 0 {
+		c.Names = rapid.SliceOfN(rapid.IntRange(0, 6), 1, 3).Draw(t, "names")
 	}
 	k := rapid.IntRange(0, 12).Draw(t, "lookups")
 	for i := 0; i < k; i++ {
@@ -102,10 +110,17 @@ func checkC11(ci interface{}, st *Stats) (err error) {
 				st.Class("... whose filler is one single line")
 			}
 		}
-		name := fmt.Sprintf("file%d", i)
+		name, kind := fmt.Sprintf("file%d", i), 0
+		if len(c.Names) > 0 {
+			kind = c.Names[i%len(c.Names)]
+			name = strings.Replace(fileNameKind(kind), "f", name, 1)
+			if kind != 0 {
+				st.Class("file name other than a plain word (none, ./file, d/../file, d//file, file/, .)")
+			}
+		}
 		f := newFileOwned(name, raw)
 		if c.ViaDisk {
-			df, dn, err := fileViaDisk(raw)
+			df, dn, err := fileViaDiskSpelled(raw, kind%4)
 			if err != nil {
 				return Discard{"cannot write a temporary file"}
 			}
